@@ -32,8 +32,8 @@ ASSUMPTIONS = [
     "a path/query mixing valid %XX escapes with stray '%' may be encoded either way",
 ]
 REQUIRED_PROBES = {
-    "quick": ["https", "ipv6", "ipv6_zone", "idn", "trailing_dot", "userinfo", "fragment", "dot_segments", "pair_shared_socket", "proxy_forward", "proxy_tunnel", "default_port_explicit", "empty_path_query"],
-    "thorough": ["https", "ipv6", "ipv6_zone", "idn", "trailing_dot", "userinfo", "fragment", "dot_segments", "pair_shared_socket", "proxy_forward", "proxy_tunnel", "default_port_explicit", "empty_path_query"],
+    "quick": ["https", "ipv6", "ipv6_zone", "idn", "trailing_dot", "userinfo", "fragment", "dot_segments", "pair_shared_socket", "sibling_dialled_under_own_name", "proxy_forward", "proxy_tunnel", "default_port_explicit", "empty_path_query"],
+    "thorough": ["https", "ipv6", "ipv6_zone", "idn", "trailing_dot", "userinfo", "fragment", "dot_segments", "pair_shared_socket", "sibling_dialled_under_own_name", "proxy_forward", "proxy_tunnel", "default_port_explicit", "empty_path_query"],
 }
 
 HOSTS = ["h.test", "H.Test", "A.B.EXAMPLE.test", "h.test.", "bücher.test", "BÜCHER.test", "10.0.0.5", "[fd00::5]", "[FD00::5]", "[fe80::1%25eth0]", "[fe80::1%eth0]", "xn--bcher-kva.test"]
@@ -79,6 +79,14 @@ def gen(rng):
         elif ps is not None and int(ps) == R.DEFAULT_PORT[s] and rng.random() < 0.5:
             p2 = None
         sc["variant"] = scheme.swapcase() + "://" + (ui + "@" if ui is not None else "") + h2 + (":" + p2 if p2 is not None else "") + path + ("?" + q if q is not None else "") + ("#" + f if f is not None else "")
+    elif rng.random() < 0.25 and not host.startswith("[") and not host[0].isdigit():
+        # a *different* host that only looks alike: "h.test." is a fully qualified DNS name, "h.test" is subject to the resolver's
+        # search list.  Each of the two requests must be dialled under its own spelling.
+        h2 = host[:-1] if host.endswith(".") else host + "."
+        sc["sibling"] = scheme + "://" + (ui + "@" if ui is not None else "") + h2 + (":" + ps if ps is not None else "") + path + ("?" + q if q is not None else "") + ("#" + f if f is not None else "")
+        if rng.random() < 0.5:
+            sc["url"], sc["sibling"] = sc["sibling"], sc["url"]
+        sc["first_closes"] = rng.random() < 0.5
     return sc
 
 
@@ -156,7 +164,9 @@ def run(sc: dict) -> Result:
             return T.TlsPeer(world, chan, lambda w_, c: P.HttpPeer(w_, c, name, "origin", True), cert="any", name=name)
         return P.HttpPeer(world, chan, name, "origin")
 
-    urls = [sc["url"]] + ([sc["variant"]] if sc.get("variant") else [])
+    urls = [sc["url"]] + ([sc["variant"]] if sc.get("variant") else []) + ([sc["sibling"]] if sc.get("sibling") else [])
+    if sc.get("first_closes"):
+        w.sc["exchanges"] = [{"k": "resp", "status": 200, "keepalive": False}]
     u0 = read_url(sc["url"])
     if via == "proxy":
         w.listen(None, 3128, H.origin_factory("proxy", "proxy"))
@@ -182,7 +192,9 @@ def run(sc: dict) -> Result:
             res.probes["rejected:" + type(outs[0][1]).__name__] += 1
         else:
             check(sc, w, u0, res, via)
-            if len(urls) == 2 and outs[1][0] == "ok" and not res.violations:
+            if sc.get("sibling") and outs[1][0] == "ok" and via == "direct":
+                check_second(sc["sibling"], w, res)
+            if sc.get("variant") and len(urls) == 2 and outs[1][0] == "ok" and not res.violations:
                 reqs = [q for q in w.requests if q.method != "CONNECT"]
                 if len(reqs) == 2:
                     if reqs[0].sid != reqs[1].sid:
@@ -217,7 +229,7 @@ def check(sc, w, u, res, via):
     if via == "direct":
         host_q = lookups[0] if lookups else None
         want_dns = u["host"] + ("%" + u["zone"] if u["zone"] else "")
-        if host_q is None or host_q.rstrip(".") != want_dns.rstrip("."):
+        if host_q is None or host_q.lower() != want_dns.lower():
             res.bad("wrong_host_dialled", f"resolver was asked for {host_q!r}, the URL's host is {want_dns!r}")
         if not dials or dials[0][1] != u["port"]:
             res.bad("wrong_port_dialled", f"connected to port {dials[0][1] if dials else None}, URL says {u['port']}")
@@ -270,6 +282,41 @@ def check(sc, w, u, res, via):
             check_sni(wraps[-1][2] if wraps else None, u, res)
 
 
+def dial_names(w) -> dict:
+    """socket id -> (name the resolver was asked for, port dialled)"""
+    out, last = {}, None
+    for e in w.events:
+        if e[1] == "dns":
+            last = e[3][0]
+        elif e[1] == "dial":
+            out[e[2]] = (last, e[3][1])
+    return out
+
+
+def check_second(url, w, res):
+    """The second request of a look-alike pair: everything is judged against *its* URL, on the socket that carried it."""
+    u = read_url(url)
+    reqs = [q for q in w.requests if q.method != "CONNECT"]
+    if len(reqs) < 2:
+        res.bad("nothing_sent", "second request() returned but no second request reached any peer")
+        return
+    req = reqs[1]
+    name, port = dial_names(w).get(req.sid, (None, None))
+    want_dns = u["host"] + ("%" + u["zone"] if u["zone"] else "")
+    if name is None or name.lower() != want_dns.lower():
+        res.bad("wrong_host_dialled", f"second URL {url!r}: its request travelled on a connection opened to {name!r}, the URL's host is {want_dns!r}")
+    elif port != u["port"]:
+        res.bad("wrong_port_dialled", f"second URL {url!r}: connected to port {port}, URL says {u['port']}")
+    else:
+        res.probes["sibling_dialled_under_own_name"] += 1
+    if req.target not in want_targets(u):
+        res.bad("wrong_target", f"target {req.target!r}, reference {sorted(want_targets(u))!r}")
+    check_host_field(req, u, res)
+    if u["scheme"] == "https":
+        wraps = [t for t in w.tls_log if t[0] == "client_wrap" and t[1] == req.sid]
+        check_sni(wraps[0][2] if wraps else None, u, res)
+
+
 def check_host_field(req, u, res):
     hv = req.header_all("Host")
     ok = {want_host_field(u, False).lower(), want_host_field(u, True).lower()}
@@ -290,6 +337,10 @@ def shrinks(sc):
     if sc.get("variant"):
         c = copy.deepcopy(sc)
         del c["variant"]
+        yield c
+    if sc.get("first_closes"):
+        c = copy.deepcopy(sc)
+        del c["first_closes"]
         yield c
     if sc["via"] != "direct":
         c = copy.deepcopy(sc)
